@@ -230,7 +230,21 @@ func (c *Ctx) runCase(cs *Case, f func(cs *Case)) {
 			cs.Fail("panic", map[string]interface{}{"panic": trimAddr(msg)}, map[string]interface{}{"panic": msg, "stack": st})
 		}
 	}()
+	// a case is short (the whole quick check of a property takes about a minute); one that has not finished
+	// after caseBound is a call into the library that does not return. The case keeps its goroutine (guard-page
+	// faults are recovered per goroutine), so the watchdog can only end the worker: the driver reports the dead
+	// worker as a violation at this case.
+	bound := 300 * time.Second
+	if c.Tier == "thorough" {
+		bound = 1800 * time.Second
+	}
+	stage, idx := cs.Stage, cs.Idx
+	wd := time.AfterFunc(bound, func() {
+		fmt.Fprintf(os.Stderr, "\nfatal: case did not return within %v: stage %s index %d\n", bound, stage, idx)
+		os.Exit(97)
+	})
 	f(cs)
+	wd.Stop()
 	c.mu.Lock()
 	c.res.Evals++
 	if cs.Desc != nil && len(c.res.Samples) < 2 {
